@@ -37,7 +37,12 @@ func init() {
 		log.SetOutput(os.Stderr)
 		log.SetLevel(log.DebugLevel)
 	}
-	log.StandardLogger().ExitFunc = func(code int) { panic(exitSentinel{code}) }
+	log.StandardLogger().ExitFunc = func(code int) {
+		if exitHook != nil {
+			exitHook(code)
+		}
+		panic(exitSentinel{code})
+	}
 }
 
 type RunSpec struct {
@@ -98,6 +103,68 @@ type recCloud struct {
 	w *World
 }
 
+func (r *recCloud) GetNodeGroup(id string) (cloudprovider.NodeGroup, bool) {
+	ng, ok := r.CloudProvider.GetNodeGroup(id)
+	if !ok || ng == nil {
+		return ng, ok
+	}
+	return &recNodeGroup{NodeGroup: ng, w: r.w}, true
+}
+
+func (r *recCloud) NodeGroups() []cloudprovider.NodeGroup {
+	in := r.CloudProvider.NodeGroups()
+	out := make([]cloudprovider.NodeGroup, len(in))
+	for i, ng := range in {
+		out[i] = &recNodeGroup{NodeGroup: ng, w: r.w}
+	}
+	return out
+}
+
+// recNodeGroup notes where a removal or scale-up request on the provider begins and ends.
+type recNodeGroup struct {
+	cloudprovider.NodeGroup
+	w *World
+}
+
+func (n *recNodeGroup) begin(req *ProvReq) {
+	req.Seq0 = n.w.seq
+	if asg := n.w.asgOfCtx(); asg != "" {
+		req.Known = n.w.known[asg].clone()
+	}
+	if n.w.gscan != nil {
+		n.w.gscan.Reqs = append(n.w.gscan.Reqs, req)
+	}
+}
+
+func (n *recNodeGroup) end(req *ProvReq, err error) {
+	req.Seq1, req.Done = n.w.seq, true
+	if err != nil {
+		req.Err = err.Error()
+		if ne := asNotInGroup(err); ne != nil {
+			req.NotInGroup = ne.NodeName
+		}
+	}
+}
+
+func (n *recNodeGroup) DeleteNodes(nodes ...*v1.Node) error {
+	req := &ProvReq{Kind: "delete"}
+	for _, x := range nodes {
+		req.Nodes = append(req.Nodes, x.Name)
+	}
+	n.begin(req)
+	err := n.NodeGroup.DeleteNodes(nodes...)
+	n.end(req, err)
+	return err
+}
+
+func (n *recNodeGroup) IncreaseSize(delta int64) error {
+	req := &ProvReq{Kind: "increase", Delta: delta}
+	n.begin(req)
+	err := n.NodeGroup.IncreaseSize(delta)
+	n.end(req, err)
+	return err
+}
+
 func (r *recCloud) Refresh() error {
 	prev := r.w.ctx
 	r.w.ctx = ""
@@ -151,7 +218,18 @@ func (r *recPods) List() ([]*v1.Pod, error) {
 	w := r.sup.w
 	gs := r.sup.enter(r.g, r.idx)
 	pods, err := r.inner.List()
+	if gs != nil && gs.PodsListed {
+		// a second listing in the same turn: the view of the scan stays the first one (what the decision was
+		// most plausibly taken on); if the cache has moved in between, which of the two the code used is not
+		// knowable and the exact-outcome rules stand back
+		if !samePodView(gs.Pods, pods, w) {
+			gs.ViewMoved = true
+		}
+		w.logf("list g=%s pods again n=%d err=%v", r.g, len(pods), err != nil)
+		return pods, err
+	}
 	if gs != nil {
+		gs.PodsListed = true
 		gs.PodsErr = err != nil
 		// the recorded view is what the watch delivered (pristine), not the shared objects the controller holds
 		gs.Pods = make([]*v1.Pod, 0, len(pods))
@@ -171,6 +249,13 @@ func (r *recNodes) List() ([]*v1.Node, error) {
 	w := r.sup.w
 	gs := r.sup.enter(r.g, r.idx)
 	nodes, err := r.inner.List()
+	if gs != nil && gs.NodesListed {
+		if !sameNodeView(gs.Nodes, nodes, w) {
+			gs.ViewMoved = true
+		}
+		w.logf("list g=%s nodes again n=%d err=%v", r.g, len(nodes), err != nil)
+		return nodes, err
+	}
 	if gs != nil {
 		gs.NodesErr = err != nil
 		gs.NodesListed = true
@@ -183,6 +268,13 @@ func (r *recNodes) List() ([]*v1.Node, error) {
 			}
 		}
 		gs.TList = time.Now()
+		// which nodes of the view lag behind the API server (a code that looks again before it acts sees the newer state)
+		gs.StaleNodes = map[string]bool{}
+		for _, n := range gs.Nodes {
+			if st := w.kube.nodes[n.Name]; st == nil || st.ResourceVersion != n.ResourceVersion {
+				gs.StaleNodes[n.Name] = true
+			}
+		}
 	}
 	w.logf("list g=%s nodes n=%d err=%v", r.g, len(nodes), err != nil)
 	return nodes, err
@@ -419,37 +511,53 @@ func diffNames(a, b []string) string {
 	return fmt.Sprintf("only-first=%v only-second=%v", onlyA, onlyB)
 }
 
-// guard runs f and classifies how it ended.
+// guard runs f and classifies how it ended. f runs in a goroutine of its own so that a simulated kill (and the
+// process's own exit) can end it with runtime.Goexit, which no recover() in the code under test can swallow.
 func (s *Supervisor) guard(f func() error) (out Outcome) {
-	defer func() {
-		if r := recover(); r != nil {
-			switch v := r.(type) {
-			case crashSentinel:
-				out.Crash = true
-				s.stats.Crashes++
-				s.w.logf("crash at %s", v.at)
-			case exitSentinel:
-				out.Exit = true
-				s.stats.Exits++
-				s.w.logf("exit(%d)", v.code)
-			default:
+	w := s.w
+	w.dead, w.goexit = nil, true
+	exitHook = func(code int) { w.die(deathNote{code: code}) }
+	done := make(chan struct{})
+	go func() {
+		defer close(done)
+		defer func() {
+			if r := recover(); r != nil {
 				out.Panic = fmt.Sprint(r)
 				out.Stack = string(debug.Stack())
 				if m := unimplementedSDK(out.Stack); m != "" {
 					s.res.HarnessErr = "the code under test called " + m + ", which the simulated AWS does not implement"
 				}
 			}
+		}()
+		if err := f(); err != nil {
+			out.Err = err.Error()
+			out.ErrType = fmt.Sprintf("%T", err)
+			if ne := asNotInGroup(err); ne != nil {
+				out.NotInGroupNode = ne.NodeName
+			}
 		}
 	}()
-	if err := f(); err != nil {
-		out.Err = err.Error()
-		out.ErrType = fmt.Sprintf("%T", err)
-		if ne := asNotInGroup(err); ne != nil {
-			out.NotInGroupNode = ne.NodeName
+	<-done
+	exitHook = nil
+	w.goexit = false
+	if d := w.dead; d != nil {
+		w.dead = nil
+		out = Outcome{}
+		if d.crash {
+			out.Crash = true
+			s.stats.Crashes++
+			w.logf("crash at %s", d.at)
+		} else {
+			out.Exit = true
+			s.stats.Exits++
+			w.logf("exit(%d)", d.code)
 		}
 	}
 	return out
 }
+
+// exitHook is what logrus' Fatal ends in while the controller supervisor is running the code under test.
+var exitHook func(code int)
 
 func panicSite(stack string) string {
 	// first frame inside the escalator module below the panic
@@ -481,7 +589,7 @@ func stackExcerpt(stack string) []string {
 }
 
 func (s *Supervisor) violate(v Violation) {
-	if !s.spec.AllProps && v.Property != s.spec.Prop {
+	if !s.spec.AllProps && !allPropsEnv && v.Property != s.spec.Prop {
 		s.stats.Probe("other-property-violation:" + v.Property + "/" + v.Rule)
 		return
 	}
@@ -508,7 +616,7 @@ func (s *Supervisor) runScan() *ScanRecord {
 	}
 	w.scan, w.gscan, w.ctx = nil, nil, ""
 	for _, gs := range rec.Groups {
-		if gs.Reached {
+		if gs.Reached && gs.Gauges == nil {
 			gs.Gauges = readGauges(gs.Group)
 		}
 	}
@@ -569,6 +677,12 @@ func RunOne(t *testing.T, spec RunSpec, stats *Stats) (res *RunResult) {
 	defer func() {
 		if r := recover(); r != nil {
 			msg := fmt.Sprint(r)
+			if strings.Contains(msg, "main bubble goroutine has exited") {
+				// every scan returned and the run is complete; what is left are background goroutines of the code
+				// under test parked on a channel (an event broadcaster, say). That is not a scan that hangs.
+				stats.Probe("goroutines of the code under test still parked when the run ended")
+				return
+			}
 			if strings.Contains(msg, "deadlock") && (spec.AllProps || spec.Prop == "C20") {
 				res.Violations = append(res.Violations, Violation{Property: "C20", Rule: "c20-wedge", Site: "bubble-deadlock", Scan: res.Scans, Detail: "all goroutines durably blocked: " + msg})
 				return
@@ -624,6 +738,9 @@ func runInBubble(spec RunSpec, stats *Stats, res *RunResult) {
 		res.Log = w.logLines
 		res.Streams = ch.Recorded()
 		res.CallKeys = w.callKeys
+		if len(w.kube.unmodelled) > 0 && res.HarnessErr == "" {
+			res.HarnessErr = "the code under test used API requests the simulated API server does not model: " + strings.Join(w.kube.unmodelled, ", ")
+		}
 	}()
 	for s.life = 0; s.life < cfg.MaxLives && s.scans < cfg.Horizon && len(res.Violations) == 0; s.life++ {
 		if s.life > 0 {
@@ -701,4 +818,52 @@ func asNotInGroup(err error) *cloudprovider.NodeNotInNodeGroup {
 		}
 	}
 	return nil
+}
+
+
+// allPropsEnv (VERIF_ALLPROPS=1): every oracle reports, whatever property the check was started for. Used
+// only by the sensitivity tooling (benign-change runs), never by a registered check.
+var allPropsEnv = os.Getenv("VERIF_ALLPROPS") == "1"
+
+
+func sameNodeView(first []*v1.Node, again []*v1.Node, w *World) bool {
+	if len(first) != len(again) {
+		return false
+	}
+	seen := map[string]string{}
+	for _, n := range first {
+		seen[n.Name] = n.ResourceVersion
+	}
+	for _, n := range again {
+		rv := n.ResourceVersion
+		if pn := w.kube.pristineNode(n); pn != nil {
+			rv = pn.ResourceVersion
+		}
+		if v, ok := seen[n.Name]; !ok || v != rv {
+			return false
+		}
+	}
+	return true
+}
+
+func samePodView(first []*v1.Pod, again []*v1.Pod, w *World) bool {
+	if len(first) != len(again) {
+		return false
+	}
+	seen := map[string]int{}
+	for _, p := range first {
+		seen[string(p.UID)+"/"+p.ResourceVersion]++
+	}
+	for _, p := range again {
+		q := p
+		if pp := w.kube.pristinePod(p); pp != nil {
+			q = pp
+		}
+		k := string(q.UID) + "/" + q.ResourceVersion
+		if seen[k] == 0 {
+			return false
+		}
+		seen[k]--
+	}
+	return true
 }
